@@ -93,6 +93,8 @@ var _ Backend = (*backend)(nil)
 //   2.2 insert into watch chan to broadcast to watchers
 
 type backend struct {
+	verif verifFields // empty without build tag verif
+
 	tso tso.TSO
 
 	election election.ResourceLockManager
